@@ -699,9 +699,7 @@ class List(list, base.Symbolic, pg_typing.CustomTyping):
     if n <= 0:
       self.clear()
     elif n > 1:
-      items = list(self.sym_values())
-      for _ in range(n - 1):
-        self.extend(items)
+      self.extend(list(self.sym_values()) * (n - 1))
     return self
 
   def copy(self) -> 'List':
@@ -798,22 +796,47 @@ class List(list, base.Symbolic, pg_typing.CustomTyping):
           f'List cannot be cleared: min size is {self._value_spec.min_size}.')
     old_values = list(self.sym_values())
     super().clear()
-    for old_value in old_values:
+    updates = []
+    for i, old_value in enumerate(old_values):
       self._detach(old_value)
+      updates.append(
+          base.FieldUpdate(
+              self.sym_path + i, self,
+              self._value_spec.element if self._value_spec else None,
+              old_value, pg_typing.MISSING_VALUE))
+    if flags.is_change_notification_enabled() and updates:
+      self._notify_field_updates(updates)
 
   def sort(self, *, key=None, reverse=False) -> None:
     """Sorts the items of the list in place.."""
     if base.treats_as_sealed(self):
       raise base.WritePermissionError('Cannot sort a sealed List.')
+    old_values = list(self.sym_values())
     super().sort(key=key, reverse=reverse)
-    self._update_children_paths(self.sym_path, self.sym_path)
+    self._on_reordered(old_values)
 
   def reverse(self) -> None:
     """Reverse the elements of the list in place."""
     if base.treats_as_sealed(self):
       raise base.WritePermissionError('Cannot reverse a sealed List.')
+    old_values = list(self.sym_values())
     super().reverse()
+    self._on_reordered(old_values)
+
+  def _on_reordered(self, old_values: typing.List[Any]) -> None:
+    """Re-indexes the children and notifies the positions that changed."""
     self._update_children_paths(self.sym_path, self.sym_path)
+    updates = []
+    for i, (old_value, new_value) in enumerate(
+        zip(old_values, self.sym_values())):
+      if old_value is not new_value:
+        updates.append(
+            base.FieldUpdate(
+                self.sym_path + i, self,
+                self._value_spec.element if self._value_spec else None,
+                old_value, new_value))
+    if flags.is_change_notification_enabled() and updates:
+      self._notify_field_updates(updates)
 
   def custom_apply(
       self,
